@@ -362,10 +362,15 @@ func (a *remoteAuthorizer) calculateCacheKey(sub *subject.Subject, values map[st
 	binary.LittleEndian.PutUint64(ttlBytes, uint64(a.ttl))
 
 	hash := sha256.New()
+	// the separators ensure that different settings cannot result in the same sequence of bytes
+	// (like a header name continued by the payload compared to a longer header name with a shorter payload)
 	hash.Write(a.e.Hash())
 	hash.Write(stringx.ToBytes(a.id))
+	hash.Write([]byte{0})
 	hash.Write(stringx.ToBytes(strings.Join(a.headersForUpstream, ",")))
+	hash.Write([]byte{0})
 	hash.Write(stringx.ToBytes(payload))
+	hash.Write([]byte{0})
 	hash.Write(ttlBytes)
 	hash.Write(sub.Hash())
 
